@@ -83,6 +83,11 @@ pub fn run(case: &Value, ctx: &Ctx) -> Outcome {
     // holding an older and LONGER output, or onto the input file itself
     let dest = case["dest"].as_str().unwrap_or("stdout");
     out.tag(format!("dest:{dest}"));
+    if dest == "stdout" && id % 5 == 0 {
+        // the same invocation with a stdout that is dead from the first byte: a diagnosed error, never success
+        let d = cli::sfs_dead_stdout(ctx, &a, &input, if id % 2 == 0 { "enospc" } else { "epipe" });
+        out.check(!d.ok() && !d.panicked() && !d.stderr.trim().is_empty(), || "view/combined/dead-sink".into(), || json!({"args": args, "code": d.code, "stderr": d.stderr}));
+    }
     let mut combined = if dest == "stdout" {
         cli::sfs(ctx, &a, Some(&input))
     } else {
